@@ -13,11 +13,11 @@ from checks import grcommon as gc
 
 PID = "C03"
 ALPHABET = ['gammadet', 'Ktrace', 's_RicciS', 'rho_n', 'betadown3',
-            'Momentumup3', 'gammaup3', 's_Ricci_down3', 'Tdown4', 'gdown4',
+            'Momentumup3', 'Momentumx', 'Momentumdownx', 'gammaup3', 's_Ricci_down3', 'Tdown4', 'gdown4',
             's_Gamma_udd3', 'st_Gamma_udd4', 's_Riemann_down3',
             'st_Riemann_down4', 'Weyl_Psi', 'dtconserved', 'Weyl_invariants',
             'alpha', 'gxx', 'rho0']
-SMALL = ['gammadet', 'gammaup3', 's_Gamma_udd3', 's_RicciS', 'Tdown4',
+SMALL = ['gammadet', 'Momentumx', 'Momentumdownx', 'gammaup3', 's_Gamma_udd3', 's_RicciS', 'Tdown4',
          'st_Riemann_down4', 'Weyl_Psi', 'dtconserved', 'Weyl_invariants',
          'alpha']
 _CFG = None
